@@ -33,6 +33,7 @@ type isoResp struct {
 	RootNil     bool      `json:"rootnil"`
 	StringPanic string    `json:"string_panic,omitempty"`
 	CallerPanic string    `json:"caller_panic,omitempty"`
+	Second      string    `json:"second,omitempty"` // get: the second lookup on the same Set disagrees with the first
 	LexerLeak   bool      `json:"lexer_leak"`
 	LeakStacks  string    `json:"leak_stacks,omitempty"`
 	Walk        *walkResp `json:"walk,omitempty"`
@@ -93,6 +94,14 @@ func handleIso(req isoReq) (resp isoResp) {
 			files[req.Name] = req.Src
 			s, _ := jetrun.NewSet(files, req.Delims.Options()...)
 			t, err = s.GetTemplate(req.Name)
+			// asked again on the same Set the answer must be the same kind of answer: a failure is never
+			// remembered as a success (a half-built template served from the cache)
+			t2, err2 := s.GetTemplate(req.Name)
+			if (err == nil) != (err2 == nil) {
+				resp.Second = fmt.Sprintf("first GetTemplate err=%v, second err=%v", err, err2)
+			} else if err2 == nil && (t2 == nil || t2.Root == nil) {
+				resp.Second = "second GetTemplate returned an unusable template"
+			}
 		default:
 			s, _ := jetrun.NewSet(files, req.Delims.Options()...)
 			t, err = s.Parse(req.Name, req.Src)
